@@ -614,6 +614,7 @@ func (v *FnV) checkPosts(ex Exit, sc *Scope, ord int) {
 		}
 		ob.SMT = v.script(st, val.S)
 		v.obligs = append(v.obligs, ob)
+		v.premiseCover(ex.st, cl, psc, name)
 	}
 	v.checkExits(ex, psc, ord)
 }
